@@ -861,6 +861,15 @@ class WitnessModel(Model):
                         return np.array(sorted(range(len(vals)), key=lambda i: vals[i]), dtype=np.int64)  # stable
                     return int(max(range(len(vals)), key=lambda i: (vals[i] if fname == 'argmax' else -vals[i], -i))) if vals else \
                         (_ for _ in ()).throw(RaiseSignal('ValueError', node, interp.where(node), ('attempt to get argmax of an empty sequence',)))
+            if fname == 'searchsorted' and len(args) >= 2 and isinstance(args[0], SVar) and items_of(args[0]) is not None and isinstance(args[1], SVar | int | float | F) \
+                    and not (isinstance(args[1], SVar) and items_of(args[1]) is not None):
+                # bisection in a sorted array, decided at the witness: the index is a concrete integer
+                vals = [self.value(x) for x in items_of(args[0])]
+                key = self.value(args[1])
+                side = kwargs.get('side', args[2] if len(args) > 2 else 'left')
+                if all(v is not None for v in vals) and key is not None and side in ('left', 'right'):
+                    import bisect
+                    return (bisect.bisect_left if side == 'left' else bisect.bisect_right)(vals, key)
             conc = [self._concrete_flags(a) if isinstance(a, SVar) else a for a in args]
             if all(c is not None and not isinstance(c, SVar | Opaque) for c in conc) and not any(isinstance(v, SVar | Opaque) for v in kwargs.values()) and args:
                 try:
